@@ -20,6 +20,7 @@ fi
 case $ID in
   C06|C07|C08|C14) PKG=lane ;;
   C19) PKG=c19 ;;
+  C20) PKG=c20 ;;
   C18) PKG=c18 ;;
   C10) PKG=c10 ;;
   C09) PKG=c09 ;;
@@ -61,6 +62,12 @@ if [ "$ID" = C11 ]; then
   build real
   "$WORK/check.small" -id C11 -tier "$TIER" -root "$ROOT" -variant small -part "$WORK/part.small" || exit $?
   "$WORK/check.real" -id C11 -tier "$TIER" -root "$ROOT" -variant real -prev "$WORK/part.small"
+  exit $?
+fi
+if [ "$ID" = C20 ]; then
+  build main
+  go build "${MODFLAG[@]}" -tags verif -o "$WORK/c20proc" ./checks/c20/proc > "$WORK/build.proc.log" 2>&1 || { head -30 "$WORK/build.proc.log"; infra "cannot build the process harness with -tags verif"; }
+  "$WORK/check.main" -id C20 -tier "$TIER" -root "$ROOT" -variant main -proc "$WORK/c20proc" -repo "$REPO" "${REPLAY[@]}"
   exit $?
 fi
 build main "${VARGS[@]}"
